@@ -2516,6 +2516,35 @@ class FuncParameterWrite(Base):
       assign_fpw(s.w, s.a + 1)
 
 
+# MAY_REFUSE_SIM: the simulation passes may refuse these designs loudly (a TypeError that names the attribute); if they accept one, the
+# simulation has to follow the reference
+MAY_REFUSE_SIM = ("SecondNameOfPart",)
+
+
+@design(lambda st, a, b, sel, en, reset: (None, {"o": a & 0xF, "p": (b >> 4) & 0xF}))
+class SecondNameOfPart(Base):
+  """s.lo = s.w[0:4] / s.fy = s.st.y: attributes that are second names of a slice / a field of a signal, read in a block"""
+  def construct(s):
+    s.ports()
+    s.o = OutPort(Bits4)
+    s.p = OutPort(Bits4)
+    s.w = Wire(Bits8)
+    s.st = Wire(Pst)
+    s.lo = s.w[0:4]
+    s.fy = s.st.y
+
+    @update
+    def up_snp_w():
+      s.w @= s.a
+      s.st.x @= s.b[0:4]
+      s.st.y @= s.b[4:8]
+
+    @update
+    def up_snp():
+      s.o @= s.lo
+      s.p @= s.fy
+
+
 def sequences():
   """input sequences (lists of dicts): one long deterministic walk covering every (sel, en) with varied a, b; reset pulses inside"""
   A = (0, 1, 0x5A, 0xFF, 0x80, 0x0F, 0x37)
